@@ -92,16 +92,17 @@ ASSUMPTIONS = [
 BOUNDS_TEXT = {"quick": "18 entry points + 12 two-layer stacks, 4 ways the work ends, P<=1 (P=0 for stacks with worker threads)",
                "thorough": "P<=2 / P<=1"}
 MUST_REACH = {"*": ["promptness-checked", "external-cancel-ended"]}
-BUDGET = {"quick": 90.0, "thorough": 900.0}
+BUDGET = {"quick": 90.0, "thorough": 600.0}
 
 
 def plan(tier, seed):
     items = []
     q = tier == "quick"
     for n in entries.ALL_ENTRIES:
-        items.append(dict(scenario="lost", params=dict(entry=n), bounds=dict(P=(1 if q else 2))))
+        items.append(dict(scenario="lost", params=dict(entry=n), bounds=dict(P=(2 if q else 3))))
     for n in STACKS2:
-        items.append(dict(scenario="lost", params=dict(entry=n), bounds=dict(P=0 if q else 1)))
+        deep = n in ("stack:retry+poll", "stack:poll+retry", "stack:retry+throttle", "stack:map+poll", "stack:flat_map+retry", "stack:timeout+map", "stack:cancel_on_shutdown+retry")
+        items.append(dict(scenario="lost", params=dict(entry=n), bounds=dict(P=(1 if deep else 0) if q else (2 if deep else 1))))
     for n in ("stack:timeout_short+retry", "stack:timeout_short+map", "stack:timeout_short+poll"):
-        items.append(dict(scenario="lost", params=dict(entry=n, kinds=["never", "value"]), bounds=dict(P=0 if q else 1)))
+        items.append(dict(scenario="lost", params=dict(entry=n, kinds=["never", "value"]), bounds=dict(P=1 if q else 2)))
     return items
